@@ -58,6 +58,10 @@ def env():
   return _ENV
 
 
+def _prefix(a, b):
+  return len(a) <= len(b) and all(x == y and type(x) is type(y) for x, y in zip(a, b))
+
+
 def key_text(j):
   return 'k%d' % j
 
@@ -372,8 +376,8 @@ class Runner:
           path = self.resolve_path(t, pspec)
           if is_list:
             path = [path[0]] if path and isinstance(path[0], int) else [0]
-          if not path or any(path == p[0] and [type(a) for a in path] == [type(a) for a in p[0]] for p in pairs):
-            continue
+          if not path or any(_prefix(path, p[0]) or _prefix(p[0], path) for p in pairs):
+            continue     # paths of one rebind are prefix-independent
           ve = self.resolve_ve(cx, u, val)
           parent = t
           for k in path[:-1]:
@@ -381,16 +385,15 @@ class Runner:
                                                and parent.sym_hasattr(k)) else None
           if parent is None or not self.is_node(parent):
             parent = None
+          ins = ins and parent is not None and self.kind(parent) == 'l'
           if ins:
-            ve = drop_own(parent if parent is not None else t, ve)
+            ve = drop_own(parent, ve)
           pairs.append((path, ins, ve, parent))
         d = {}
         for path, ins, ve, parent in pairs:
           value = self.build(ve)
           if ins:
-            # an Insertion only means something where the written container is a list
-            if parent is not None and self.kind(parent) == 'l':
-              value = pg.Insertion(value)
+            value = pg.Insertion(value)
           d[pg.KeyPath(path)] = value
         skip = j.get('skip')
         t.rebind(d, skip_notification=skip if isinstance(skip, bool) else None)
@@ -552,11 +555,23 @@ def canon(dump):
 
 def run_history(case, check=True, extra=None):
   """Runs the whole history on the real code. Returns {'model': [per-step records], 'fail': …}."""
+  import signal   # pylint: disable=import-outside-toplevel
+  from harness.common.framework import CaseTimeout   # pylint: disable=import-outside-toplevel
   r = Runner()
   steps = []
   fail = None
   for i, j in enumerate(case['ops']):
-    out = r.step(j)
+    try:
+      if j.get('unsafe'):
+        # witness of a non-terminating call: short time box for this step
+        # (the handler installed by the framework raises CaseTimeout)
+        left = signal.setitimer(signal.ITIMER_REAL, 4)[0]
+      out = r.step(j)
+      if j.get('unsafe'):
+        signal.setitimer(signal.ITIMER_REAL, max(left, 1) if left else 0)
+    except CaseTimeout:
+      fail = {'step': i, 'op': j, 'kind': 'hang', 'what': 'the call did not return within its time box'}
+      break
     try:
       aliased = r.update_roots()
       rec = {'out': out, 'dump': canon(r.dump())}
